@@ -28,12 +28,15 @@ TMonClauses(m, ev) ==
   CASE ev.e = "store" ->
          << <<"C04-prefix-applied-on-the-wire", ev.ok => ev.wirekey = WK(m, ev.key)>> >>
     [] ev.e = "fetch" ->
+         (* the requested collection may name the same (wire) key more than once: it is still returned once *)
          LET want == { i \in DOMAIN ev.keys : Present(m, ev.keys[i]) }
              got == { ev.items[j][1] : j \in DOMAIN ev.items }
+             WKI(j) == IF ev.items[j][1] \in DOMAIN ev.keys THEN WK(m, ev.keys[ev.items[j][1]]) ELSE <<>>
          IN << <<"C04-entries-are-keyed-by-the-callers-key-objects", \A j \in DOMAIN ev.items : ev.items[j][1] # 0>>,
-               <<"C04-every-present-requested-key-is-returned", \A i \in want : i \in got>>,
+               <<"C04-every-present-requested-key-is-returned",
+                     \A i \in want : \E j \in DOMAIN ev.items : WKI(j) = WK(m, ev.keys[i])>>,
                <<"C04-no-absent-key-is-returned", \A j \in DOMAIN ev.items : ev.items[j][1] = 0 \/ ev.items[j][1] \in want>>,
-               <<"C04-each-key-exactly-once", Cardinality(got) = Len(ev.items)>>,
+               <<"C04-each-key-exactly-once", \A j1, j2 \in DOMAIN ev.items : j1 # j2 => (WKI(j1) # WKI(j2) /\ ev.items[j1][1] # ev.items[j2][1])>>,
                <<"C04-value-is-the-one-stored-under-that-key",
                      \A j \in DOMAIN ev.items : (ev.items[j][1] \in want) =>
                          ev.items[j][2] = m.st[WK(m, ev.keys[ev.items[j][1]])]>>,
